@@ -132,6 +132,41 @@ def obligations(r, tier, seed):
     obs.append(Ob("C06/history/vertex-marked-between-calls", hist_mark_after_first, scope="shape-bounded", bound="3-vertex R2 cycle, two calls", funcs=FUNCS,
                   solver="constrained", light=True))
 
+    # ---- fix_first_pose fixes the FIRST LISTED vertex, whatever it is: a graph of built-in edges whose first vertex is a landmark (a
+    #      file that lists VERTEX_XY lines first, a shuffled graph), under an arbitrary solver result
+    for T, TL in (("SE2", "R2"), ("SE3", "R3")):
+        def landmark_first(k, T=T, TL=TL):
+            r_ = k.r
+            ghost = common.Ghost()
+            Cut = common.opaque_edge_class(k, ghost)
+            vs = [r_.Vertex(5, k.pose(TL, "l")), r_.Vertex(1, k.pose(T, "a")), r_.Vertex(2, k.pose(T, "b"))]
+            np = k.np
+
+            class CutLandmark(r_.EdgeLandmark):      # a built-in landmark edge by class (what a change may look at); contributions cut
+                def calc_chi2(self):
+                    return k.nonneg("chi2_lmk%d" % self.vertex_ids[0])
+
+                def calc_chi2_gradient_hessian(self):
+                    dims = [v.pose.COMPACT_DIMENSIONALITY for v in self.vertices]
+                    tag = "lmk%d" % self.vertex_ids[0]
+                    g_ = [k.vec("g_%s_%d_" % (tag, i), d) for i, d in enumerate(dims)]
+                    out_h = []
+                    for i in range(2):
+                        for j in range(i, 2):
+                            out_h.append(((self.vertices[i].gradient_index, self.vertices[j].gradient_index), np.array(k.matrix("h_%s_%d%d" % (tag, i, j), dims[i], dims[j]))))
+                    return (self.calc_chi2(), [(v.gradient_index, np.array(g_[i])) for i, v in enumerate(self.vertices)], out_h)
+            mk_l = lambda ids: CutLandmark(ids, np.eye(POSE_C[TL]), k.pose(TL, "z%d" % ids[0]), r_.PoseSE2.identity() if T == "SE2" else k.pose(T, "off"), 0)
+            es = [mk_l([1, 5]), mk_l([2, 5]), Cut([1, 2])]
+            g = r_.Graph(es, vs)
+            before = vs[0].pose.to_array()
+            with common.counting_spsolve(k, ghost):
+                g.optimize(tol=k.nonneg("tol"), max_iter=1, fix_first_pose=True, verbose=False)
+            k.check(vs[0].fixed is True, "fix_first_pose marks the first listed vertex (a landmark here)", vs[0].fixed)
+            k.check(vs[1].fixed is False and vs[2].fixed is False, "and no other vertex", (vs[1].fixed, vs[2].fixed))
+            k.same(vs[0].pose.to_array(), before, "the first listed vertex holds the same pose after the update")
+        obs.append(Ob("C06/frame-under-every-outcome/first-listed-vertex-is-a-landmark/%s" % T, landmark_first, scope="shape-bounded",
+                      bound="one 3-vertex graph with built-in landmark edges, max_iter=1", funcs=FUNCS, solver="fault", light=True, max_paths=2000))
+
     # canaries
     def canary(k):
         s = {"vertices": [(0, "R2", True), (1, "R2", False)], "edges": [("cut", (0, 1), 2)], "fix_first_pose": False, "idset": 0}
